@@ -22,7 +22,11 @@ ASSUME = [
 
 
 def check(tier, seed, t0):
-    return rustonly.check("C12", tier, seed, t0, "exploration", RULE, ASSUME, 1_000_000, 1000)
+    extra = []
+    if tier == "thorough":
+        import sanitize
+        extra = [("miri", sanitize.miri_leg("C12", 2, shards=8))]
+    return rustonly.check("C12", tier, seed, t0, "exploration", RULE, ASSUME, 1_000_000, 1000, extra_legs=extra)
 
 
 def replay(path):
